@@ -69,9 +69,17 @@ pub(crate) mod verif_proofs {
         let act = TriggerAction::BlockOutgoing { timeout: any_dur(), duration: dur, bypass, replace, machine: mid };
         let prior_until = any_opt_instant();
         let prior_bypassable: bool = kani::any();
+        // a sibling machine's blocking action may be due at the very same instant (seed C16-c): the lower slot fires
+        // now, the sibling stays pending for the next step - it is neither lost nor executed in its place
+        let sibling: bool = slot == 0 && kani::any::<bool>();
+        let sib_act = TriggerAction::BlockOutgoing { timeout: Duration::from_secs(1), duration: Duration::from_secs(7),
+            bypass: !bypass, replace: true, machine: MachineId::from_raw(1) };
         {
             let me = if on_client { &mut c } else { &mut s };
             me.scheduled_action[slot] = Some(ScheduledAction { action: act, time: fire });
+            if sibling {
+                me.scheduled_action[1] = Some(ScheduledAction { action: sib_act, time: fire });
+            }
             me.blocking_until = prior_until;
             me.blocking_bypassable = prior_bypassable;
         }
@@ -99,7 +107,15 @@ pub(crate) mod verif_proofs {
         assert!(with_integration || e.time == fire, "[C16.begin] without integration delays: exactly at the action's timeout");
         assert!(e.bypass == want_bypassable, "[C16.bypass] the event carries the blocking's bypass property");
         assert!(me.scheduled_action[slot].is_none(), "[C17.once] a fired action is removed");
-        assert!(me.scheduled_action[1 - slot].is_none() && other.scheduled_action[0].is_none() && other.scheduled_action[1].is_none(), "[C17.once]");
+        assert!(other.scheduled_action[0].is_none() && other.scheduled_action[1].is_none(), "[C17.once]");
+        if sibling {
+            assert!(matches!(&me.scheduled_action[1], Some(sa) if sa.time == fire
+                && matches!(sa.action, TriggerAction::BlockOutgoing { machine, replace: true, .. } if machine == MachineId::from_raw(1))),
+                "[C16.begin] a blocking action due at the same instant as a sibling's is not lost: it stays pending");
+        } else {
+            assert!(me.scheduled_action[1 - slot].is_none(), "[C17.once]");
+        }
+        kani::cover!(sibling, "simultaneous sibling");
         kani::cover!(sets && prior_until.is_some(), "extends");
         kani::cover!(!sets && prior_until.is_some(), "keeps");
         std::mem::forget(c);
